@@ -720,7 +720,7 @@ def check(ctx):
     ]
     if ctx.thorough:
         m2(ctx, al, "FilterStructT", "FilterStructT.cfg", 7, 6)
-        x02_m3.m3(ctx, al, scale=8)
+        x02_m3.m3(ctx, al, scale=16)
     else:
         m2(ctx, al, "FilterStructQ", "FilterStructQ.cfg", 5, 4)
         x02_m3.m3(ctx, al, scale=1)
